@@ -400,6 +400,27 @@ def judge_composition(case, sizes, rd, rt):
     return None
 
 
+def judge_theorem_domain(case, rec, rd, special):
+    """wave 7 (request 1706): on the decidable domain of the re-read theorems (C17_domain_predicate_sound) the theorems
+    predict: the reader model never raises on the writer model's document (class 0 captions / 1 length refusal /
+    2 flash refusal) and, when it returns captions, they satisfy ok_reread.  Executed here against BOTH sides: the class
+    the extracted composition reports, and the real SCCReader on the real SCCWriter's output (which must return
+    captions: a refusal of an in-domain set is reported, with the model's class, as a broken correspondence)."""
+    if not rec["thm_domain"] or not case["caps"]:       # (the class theorem is about non-empty lists)
+        return None
+    inp = plain(case)
+    if rec["model_class"] not in (0, 1, 2):
+        return {"stream": "B-theorem-domain", "input": inp, "model": rec["model_class"],
+                "what": "extracted composition contradicts C17_reread_class_on_domain_partial (class %r)" % rec["model_class"]}
+    if special or case["flags"].get("extended") or case["flags"].get("early_first"):
+        return {"stream": "B-theorem-domain", "input": inp,
+                "what": "the harness treats a case inside the theorems' domain as outside the property's domain"}
+    if not isinstance(rd, Ok):
+        return {"stream": "B-theorem-domain", "input": inp, "impl": repr(rd)[:200], "model": rec["model_class"],
+                "what": "SCCReader refuses the SCCWriter output of a set inside the domain of the re-read theorems"}
+    return None
+
+
 def evaluate(cases):
     """-> list of dicts: case, sizes, rows, viol, dis, near, info"""
     flat = [(1704, "\n".join(c["lines"])) for case in cases for c in case["caps"]]
@@ -414,16 +435,20 @@ def evaluate(cases):
         obs.append((case, sizes, rows, doc, rd))
         wc = wire_caps(case["caps"])
         reqs += [(1701, wc), (1702, [wc, doc.v if isinstance(doc, Ok) else ""]),
-                 (1703, [wc, rd.v if isinstance(rd, Ok) else []]), (1705, wc)]
+                 (1703, [wc, rd.v if isinstance(rd, Ok) else []]), (1705, wc), (1706, wc)]
     resp = oracle_batch(reqs)
+    # the reader model's answer class (request 1707) is only needed where it did not return captions (1705 status != 0)
+    need = [i for i in range(len(obs)) if resp[5 * i + 3][0] != 0 and resp[5 * i + 4][0]]
+    classes = dict(zip(need, oracle_batch([(1707, wire_caps(obs[i][0]["caps"])) for i in need]))) if need else {}
     out, second = [], []
     for i, (case, sizes, rows, doc, rd) in enumerate(obs):
-        m, v_out, v_rd, rt = resp[4 * i:4 * i + 4]
+        m, v_out, v_rd, rt, dom = resp[5 * i:5 * i + 5]
         model_doc = Ok(m[1]) if m[0] == 0 else Err(m[1])
         caps = case["caps"]
         near = near_threshold(caps, sizes)
         rec = {"case": case, "sizes": sizes, "rows": rows, "viol": None, "dis": None, "near": near, "doc": doc,
-               "clear_removed": False}
+               "clear_removed": False, "thm_domain": bool(dom[0]),
+               "model_class": 0 if rt[0] == 0 else classes.get(i)}
         inp = plain(case)
         base = {"input": inp, "replay": "write", "stream": "B"}
         special = {i for i, r in enumerate(rows) if r > 15} | {i for i, c in enumerate(caps) if is_blank_text(c["lines"])}
@@ -458,6 +483,8 @@ def evaluate(cases):
                               "what": "code words per load in the implementation's document differ from the model's sizes"}
             elif not special and not case["flags"].get("extended") and not case["flags"].get("early_first"):
                 rec["dis"] = judge_composition(case, sizes, rd, rt)
+        if rec["viol"] is None and rec["dis"] is None:
+            rec["dis"] = judge_theorem_domain(case, rec, rd, special)
         out.append(rec)
     # cases with a caption on more than 15 rows or a whitespace-only cue that failed: judge the OTHER cues on their own
     reqs2 = []
@@ -637,7 +664,9 @@ def run(ctx):
                 "B_whitespace_only_cue", "B_more_than_6_cues", "B_several_text_nodes_per_line", "B_style_nodes",
                 "B_layout_info", "B_second_language", "B_cue_ends_after_next_start",
                 "B_first_cue_before_its_transmission_time(outside the hypothesis; structural clauses and model equality only)",
-                "B_characters_outside_basic_set(outside the domain; model equality only)"):
+                "B_characters_outside_basic_set(outside the domain; model equality only)",
+                "B_inside_domain_of_reread_theorems(request 1706)", "B_judged_for_reread_but_outside_theorem_domain",
+                "B_theorem_domain_model_returns_captions", "B_theorem_domain_model_refuses(length/flash: the unproved part)"):
         dist[key] = 0
     cases = build_cases(ctx, dist)
     rows_hist = {}
@@ -663,6 +692,17 @@ def run(ctx):
         dist["B_first_cue_before_its_transmission_time(outside the hypothesis; structural clauses and model equality only)"] += \
             int(bool(flags.get("early_first")))
         dist["B_characters_outside_basic_set(outside the domain; model equality only)"] += int(bool(flags.get("extended")))
+        dist["B_inside_domain_of_reread_theorems(request 1706)"] += int(rec["thm_domain"])
+        judged = not (flags.get("extended") or flags.get("early_first") or any(r > 15 for r in rows)
+                      or any(is_blank_text(c["lines"]) for c in caps))
+        dist["B_judged_for_reread_but_outside_theorem_domain"] += int(judged and not rec["thm_domain"])
+        if judged and not rec["thm_domain"]:
+            why = ("end_after_next_start" if flags.get("overlapping_end") else
+                   "other(" + ",".join(sorted(k for k, v in flags.items() if v)) + ")")
+            dist.setdefault("B_judged_outside_theorem_domain_why", {})
+            dist["B_judged_outside_theorem_domain_why"][why] = dist["B_judged_outside_theorem_domain_why"].get(why, 0) + 1
+        dist["B_theorem_domain_model_returns_captions"] += int(rec["thm_domain"] and rec["model_class"] == 0)
+        dist["B_theorem_domain_model_refuses(length/flash: the unproved part)"] += int(rec["thm_domain"] and rec["model_class"] in (1, 2))
         for r in rows:
             rows_hist[r] = rows_hist.get(r, 0) + 1
         key = tuple((tuple(c["lines"]), c["start"], c["end"]) for c in caps)
@@ -703,7 +743,12 @@ def run(ctx):
                     "code string = four-hex-digit words each followed by a space; half words padded with 80",
                     "timecode frames non-negative and non-decreasing under the spacing hypothesis",
                     "load displayed within (start - 3 frames, start - 2 frames] (model of PASS 2/3)",
-                    "spec decoder of the emitted body returns the laid-out rows (basic-set texts)"],
+                    "spec decoder of the emitted body returns the laid-out rows (basic-set texts)",
+                    "wave 7: builder sccr's reader model on the writer's own layout, all texts: one load line closes the "
+                    "caption on display and queues a buffer with exactly the words of the rows (C17_reader_on_load_line); "
+                    "on the whole document the decoder never raises and its caption store holds one caption per cue with the "
+                    "same words and a start within three frames (C17_reread_store_partial); whenever the reader model returns "
+                    "captions they satisfy ok_reread (C17_reread_conditional_partial)"],
         "correspondence_only": ["textwrap.wrap itself (stream A validates the Coq model of it)",
                                 "binary64 arithmetic of PASS 2 and _format_timestamp (exact model; exact-boundary "
                                 "inputs counted as near_threshold)",
@@ -712,7 +757,9 @@ def run(ctx):
                                 "re-reading through the real SCCReader: one caption per cue, same words, start time; the same "
                                 "statement for the writer model composed with builder sccr's full reader model is evaluated "
                                 "on every case (request 1705) and compared with the real pair; complete-table theorems for "
-                                "every basic character through both models",
+                                "every basic character through both models; wave 7: proved for all in-domain lists up to the "
+                                "two final refusals of SCCReader.read (line-length scan, flash check), whose absence is "
+                                "evaluated on every case (request 1706)",
                                 "document assembly of write() (header, line layout)"]}
     res["trusted_extra"] = ["Python's textwrap (modelled by coq/model/SccWrap.v for break_on_hyphens=False, no TABs; "
                             "validated by stream A on every run)",
